@@ -313,6 +313,8 @@ func solveVariant(parent context.Context, vc *VC, o *Obligation, workDir string,
 	}
 	var all []ans
 	decided := false
+	results := (<-chan ans)(ch)
+	nWait := len(solvers)
 	if thoroughAgreement && !o.MustFail && suffix == "" {
 		// thorough tier: after the first verdict the other solvers get a grace
 		// period; every verdict is recorded, and contradictory verdicts make the
@@ -357,27 +359,24 @@ func solveVariant(parent context.Context, vc *VC, o *Obligation, workDir string,
 			o.Output = "solver disagreement: " + o.Verdicts
 			return
 		}
+		// feed the verdicts to the ordinary decision logic below (through a
+		// separate channel: the solver goroutines keep sending to ch)
+		var feed []ans
 		if first != nil {
-			all = []ans{*first}
-			ch2 := make(chan ans, 1)
-			ch2 <- *first
-			ch = ch2
-			all = nil
+			feed = []ans{*first}
 		} else {
-			ch2 := make(chan ans, len(all))
-			for _, a := range all {
-				ch2 <- a
-			}
-			ch = ch2
-			all = nil
+			feed = all
 		}
-	}
-	nWait := len(solvers)
-	if thoroughAgreement && !o.MustFail && suffix == "" {
-		nWait = len(ch)
+		all = nil
+		rch := make(chan ans, len(feed)+1)
+		for _, a := range feed {
+			rch <- a
+		}
+		results = rch
+		nWait = len(feed)
 	}
 	for k := 0; k < nWait; k++ {
-		a := <-ch
+		a := <-results
 		all = append(all, a)
 		if a.status == "unsat" || a.status == "sat" {
 			o.Solver = a.solver
